@@ -37,12 +37,20 @@ func c16r1(rc *core.RC) {
 			rc.Unknown(key, fd.Pos(), "digit weight table %s not found", spec.table)
 			continue
 		}
-		// the accumulator: x += a*b inside a loop
+		// the accumulator: a statement inside a loop that multiplies by an element of the weight table
 		hasAcc := false
+		tblObj := p.Pkg("decoder").Types.Scope().Lookup(spec.table)
 		ast.Inspect(fd.Body, func(n ast.Node) bool {
-			if as, ok := n.(*ast.AssignStmt); ok && as.Tok == token.ADD_ASSIGN {
-				hasAcc = true
+			loop, ok := n.(*ast.ForStmt)
+			if !ok {
+				return true
 			}
+			ast.Inspect(loop.Body, func(m ast.Node) bool {
+				if ix, ok := m.(*ast.IndexExpr); ok && core.ObjOf(info, ix.X) == tblObj {
+					hasAcc = true
+				}
+				return true
+			})
 			return true
 		})
 		if !hasAcc {
@@ -59,7 +67,7 @@ func c16r1(rc *core.RC) {
 			if deleg {
 				rc.OK(key, fd.Pos(), "delegates to strconv")
 			} else {
-				rc.Unknown(key, fd.Pos(), "neither a digit accumulation loop nor a strconv call recognised")
+				rc.Unknown(key, fd.Pos(), "neither a digit accumulation loop over %s nor a strconv call recognised", spec.table)
 			}
 			continue
 		}
@@ -140,8 +148,46 @@ func c16r1(rc *core.RC) {
 			}
 			return true
 		})
+		// can a single product digit*weight already wrap?
+		maxW := new(big.Int)
+		for i := 0; i < t.Len; i++ {
+			if u, ok := t.Uint(i); ok {
+				if w := new(big.Int).SetUint64(u); w.Cmp(maxW) > 0 {
+					maxW = w
+				}
+			}
+		}
+		productWraps := new(big.Int).Mul(maxW, big.NewInt(9)).Cmp(spec.max) > 0
+		// a carry test: an erroring comparison between two variables of the accumulator type (next < sum)
+		carry := ""
+		ast.Inspect(fd.Body, func(n ast.Node) bool {
+			ifs, ok := n.(*ast.IfStmt)
+			if !ok {
+				return true
+			}
+			be, ok := core.Unparen(ifs.Cond).(*ast.BinaryExpr)
+			if !ok || (be.Op != token.LSS && be.Op != token.GTR) {
+				return true
+			}
+			_, xv := core.ObjOf(info, be.X).(*types.Var)
+			_, yv := core.ObjOf(info, be.Y).(*types.Var)
+			if !xv || !yv {
+				return true
+			}
+			ast.Inspect(ifs.Body, func(m ast.Node) bool {
+				if r, ok := m.(*ast.ReturnStmt); ok && core.ReturnIsError(info, r) {
+					carry = core.Src(p.Fset, ifs.Cond)
+				}
+				return true
+			})
+			return true
+		})
 		if guard != "" {
 			rc.OK(key, fd.Pos(), "an erroring comparison against the type's bound exists: %s", guard)
+		} else if carry != "" && !productWraps {
+			rc.OK(key, fd.Pos(), "carry test %s suffices: 9 × the largest weight (%s) fits the accumulator, so only the addition can wrap", carry, maxW)
+		} else if carry != "" {
+			rc.Bad(key, fd.Pos(), "the only overflow test is the carry test %s, but the product digit × weight can itself exceed the accumulator (9 × %s > %s): a %d-digit literal with a large leading digit wraps in the multiplication and is stored silently", carry, maxW, spec.max, t.Len)
 		} else {
 			rc.Bad(key, fd.Pos(), "up to %d digits are accumulated (max 10^%d-1) into a %s, which overflows, and no erroring comparison mentions the bound %s: an out-of-range literal wraps around silently", t.Len, t.Len, map[bool]string{true: "int64", false: "uint64"}[spec.signed], spec.max)
 		}
